@@ -681,6 +681,18 @@ impl DtlsInner {
                                     is_client,
                                 )
                                 .await?;
+                            } else if msg.msg_type == HandshakeType::Finished
+                                && !is_client
+                                && let Some(records) = &ctx.last_flight_records
+                            {
+                                // The client retransmitted its Finished: our final flight
+                                // (ChangeCipherSpec + Finished) was lost. Re-send it
+                                // (RFC 6347 4.2.4); the flight timer no longer runs once
+                                // we are connected. Only the sender of the last flight
+                                // answers a duplicate, so the two ends cannot ping-pong.
+                                if let Err(e) = self.conn.send_dtls_record_batch(records).await {
+                                    debug!("Failed to re-send final flight: {}", e);
+                                }
                             }
                             continue;
                         }
